@@ -14,7 +14,7 @@ RULE = ('one case = one scripted server presenting chosen public-key blobs durin
         'signed by RSA (1024..8192), Ed25519 and ECDSA (P-256/384/521) CAs; text, verbose and JSON.  Oracle: reported size == bit length of the presented modulus (independent blob parser), CA type/size likewise, fingerprints == '
         'hashlib SHA-256/MD5 of the presented blob (one RSA-family entry, none for certificates), differential threshold oracle on the notes relative to the baseline.  Non-trivial: probe answered and a size or fingerprint compared; '
         'distinct = distinct (blob set, name list, rendering)')
-REQUIRED = {'plain_beside_cert_checks': 20, 'sizes_compared': 40, 'fingerprints_compared': 40, 'threshold_checks': 40, 'below_2048': 5, 'warn_band': 5, 'ca_checks': 8, 'json_runs': 10}
+REQUIRED = {'cert_beside_plain_rsa': 10, 'plain_beside_cert_checks': 20, 'sizes_compared': 40, 'fingerprints_compared': 40, 'threshold_checks': 40, 'below_2048': 5, 'warn_band': 5, 'ca_checks': 8, 'json_runs': 10}
 ASSUMPTIONS = ['moduli are multiples of 64 bits as the quantifier says; sizes that are not a multiple of 16 bits form a separate sub-family run in the thorough tier only (the tool measures whole bytes)',
                'threshold oracle is differential (notes at size B minus notes at 4096 bits for the same names), so note wording is not frozen',
                'for certificates both the host key and the CA key are rated; equal warning texts may be merged by the tool, so ">= 1 extra warning" is demanded, not a count']
@@ -49,6 +49,15 @@ def cases(tier, seed):
     for t in ('ed25519', 'ed448'):
         for rnd in ('text', 'json', 'verbose'):
             cs.append({'kind': 'fixed', 'type': t, 'render': rnd})
+    # plain RSA names and RSA certificates under each of their three names side by side, with different keys: fingerprints are those of the plain key, sizes those of each key
+    CERTS = ['ssh-rsa-cert-v01@openssh.com', 'rsa-sha2-256-cert-v01@openssh.com', 'rsa-sha2-512-cert-v01@openssh.com']
+    i = 0
+    for ncert in (1, 2, 3):
+        for certs in itertools.combinations(CERTS, ncert):
+            for plain in ([[], ['ssh-rsa'], ['rsa-sha2-512', 'rsa-sha2-256', 'ssh-rsa']] if tier == 'thorough' else [[[], ['rsa-sha2-256']][i % 2], ['rsa-sha2-512', 'rsa-sha2-256', 'ssh-rsa']]):
+                for rnd in (('text', 'json', 'verbose') if tier == 'thorough' else (['json', 'text', 'json', 'verbose'][i % 4],)):
+                    i += 1
+                    cs.append({'kind': 'certmix', 'certs': list(certs), 'plain': plain, 'render': rnd, 'plain_bits': [2048, 3072, 4096][i % 3], 'cert_bits': [3072, 4096, 2048][i % 3], 'certs_first': i % 2 == 0})
     if tier == 'thorough':
         for b in list(range(2000, 2101, 8)) + list(range(3020, 3121, 8)) + [2047, 2049, 3071, 3073, 1023, 4095]:
             cs.append({'kind': 'rsa', 'bits': b, 'names': ['ssh-rsa'], 'render': 'text', 'with_ed': False, 'odd': True})
@@ -237,6 +246,41 @@ def run_cert(c):
     return viol, counters
 
 
+def run_certmix(c):
+    names = (c['certs'] + c['plain']) if c['certs_first'] else (c['plain'] + c['certs'])
+    keys = names + ['ssh-ed25519']
+    hk = {n: {'type': 'rsa', 'bits': c['plain_bits']} for n in RSA_FAMILY}
+    for n in c['certs']:
+        hk[n] = {'type': 'rsa-cert', 'bits': c['cert_bits'], 'ca': {'type': 'rsa', 'bits': 4096}}
+    hk['ssh-ed25519'] = {'type': 'ed25519'}
+    script = {'banner': 'SSH-2.0-OpenSSH_9.1', 'kex': audit.sym_kex(['curve25519-sha256'], keys, ['aes128-ctr'], ['hmac-sha2-256']), 'hostkeys': hk, 'gex': None}
+    r, res, fps, p = observe(script, c['render'], names)
+    viol, counters = [], {}
+    if res is None:
+        viol.append(_v('C11/audit-failed:status%s' % r.status, 'audit did not complete', out=r.out[-300:]))
+        return viol, counters
+    if c['render'] == 'json':
+        counters['json_runs'] = 1
+    counters['cert_beside_plain_rsa'] = 1
+    for n in names:
+        o = res.get(n)
+        if o is None:
+            viol.append(_v('C11/key-missing', 'advertised host key absent from the report', name=n))
+            continue
+        counters['sizes_compared'] = counters.get('sizes_compared', 0) + 1
+        want = c['cert_bits'] if n in c['certs'] else c['plain_bits']
+        if o['bits'] != want:
+            viol.append(_v('C11/size-wrong:%s-beside-%s' % ('cert' if n in c['certs'] else 'plain', 'plain' if n in c['certs'] else 'cert'), 'reported key size differs from the key presented under that name', name=n, got=o['bits'], want=want, names=names))
+        want_ca = 4096 if n in c['certs'] else None
+        if o['ca_bits'] != want_ca:
+            viol.append(_v('C11/ca-size-wrong:%s-beside-%s' % ('cert' if n in c['certs'] else 'plain', 'plain' if n in c['certs'] else 'cert'), 'reported CA size differs from the certificate presented under that name (none for plain keys)', name=n, got=o['ca_bits'], want=want_ca))
+    blobs = {'ssh-ed25519': wire.ed25519_blob()}
+    if c['plain']:
+        blobs['ssh-rsa'] = wire.rsa_blob(c['plain_bits'])
+    check_fps(fps, blobs, c['render'], viol, counters, 'certmix')
+    return viol, counters
+
+
 def run_fixed(c):
     t = c['type']
     name = 'ssh-' + t
@@ -257,7 +301,7 @@ def run_fixed(c):
 
 
 def run_case(c):
-    fn = {'rsa': run_rsa, 'cert': run_cert, 'fixed': run_fixed}[c['kind']]
+    fn = {'rsa': run_rsa, 'cert': run_cert, 'fixed': run_fixed, 'certmix': run_certmix}[c['kind']]
     viol, counters = fn(c)
     if viol is None:
         return {'verdict': 'inconclusive', 'why': counters.get('why')}
